@@ -60,6 +60,16 @@ fn main() {
             arg(&args, "--n").unwrap().parse().unwrap(),
             arg(&args, "--out").unwrap(),
         ),
+        // the names of the property's generators, one per line (used by tools/legs.sh)
+        "gens" => {
+            for g in prop.plan(tier) {
+                println!("{}", g.name);
+            }
+            if prop.miri_gen().is_some() {
+                println!("miri-sample");
+            }
+            0
+        }
         _ => {
             eprintln!("unknown mode {}", mode);
             2
